@@ -2,7 +2,38 @@ package main
 
 import (
 	"fmt"
+	"os"
+	"strings"
 )
+
+var qlog = os.Getenv("VERIF_QLOG") != ""
+
+// termStr prints a term as an s-expression down to the given depth.
+func termStr(t *Term, depth int) string {
+	switch t.Op {
+	case OConst:
+		return constStr(t)
+	case OVar:
+		return t.Name
+	}
+	if depth == 0 {
+		return "…"
+	}
+	var as []string
+	for _, a := range t.Args {
+		as = append(as, termStr(a, depth-1))
+	}
+	name := opNames[t.Op]
+	switch t.Op {
+	case OExtract:
+		name = fmt.Sprintf("extract[%d:%d]", t.C>>8, t.C&0xff)
+	case OZExt:
+		name = fmt.Sprintf("zext%d", t.W)
+	case OSExt:
+		name = fmt.Sprintf("sext%d", t.W)
+	}
+	return "(" + name + " " + strings.Join(as, " ") + ")"
+}
 
 // Decision records one point where execution depended on something that is
 // not determined by the concrete part of the state: a symbolic branch, a
@@ -52,13 +83,13 @@ type Explorer struct {
 	cursor    int         // next decision index during execution
 	pc        []*Term     // constraints of the decisions passed so far in this run
 	pcSet     map[*Term]bool
+	known     map[*Term]uint64 // terms whose value is fixed by the path condition
 
 	model map[string]uint64 // a model of the current path condition, or nil
 
 	splitDepth  int // >0: end paths that need a new decision at this depth and record the prefix
 	prefixes    [][]PrefixStep
 	prefixLen   int  // forced decisions at the bottom of the stack (sub-job)
-	skipAsserts bool // sub-job: asserts before the first new decision were checked by the splitter
 
 	FanoutCap int
 	St        ExStats
@@ -66,7 +97,7 @@ type Explorer struct {
 }
 
 func NewExplorer(tt *TermTable, s, xs *Solver, xEvery int) *Explorer {
-	return &Explorer{tt: tt, solver: s, xsolver: xs, xEvery: xEvery, FanoutCap: 4096, pcSet: map[*Term]bool{}}
+	return &Explorer{tt: tt, solver: s, xsolver: xs, xEvery: xEvery, FanoutCap: 4096, pcSet: map[*Term]bool{}, known: map[*Term]uint64{}}
 }
 
 // LoadPrefix turns the explorer into a sub-job explorer below the given prefix.
@@ -80,18 +111,21 @@ func (ex *Explorer) LoadPrefix(p []PrefixStep) {
 		ex.decisions = append(ex.decisions, d)
 	}
 	ex.prefixLen = len(p)
-	ex.skipAsserts = len(p) > 0
 }
 
 func (ex *Explorer) beginRun() {
 	ex.cursor = 0
 	ex.pc = ex.pc[:0]
 	clear(ex.pcSet)
+	clear(ex.known)
 	ex.model = nil
-	ex.skipAsserts = ex.prefixLen > 0
 }
 
 func (ex *Explorer) atFrontier() bool { return ex.cursor >= len(ex.decisions) }
+
+// skipAsserts: in a sub-job the assertions up to the first decision after
+// the forced prefix were already checked by the splitting run.
+func (ex *Explorer) skipAsserts() bool { return ex.prefixLen > 0 && ex.cursor <= ex.prefixLen }
 
 func (ex *Explorer) inconclusive(msg string) {
 	ex.inconc = append(ex.inconc, msg)
@@ -146,6 +180,9 @@ func (ex *Explorer) query(extra *Term) (bool, map[string]uint64) {
 		m = s.ModelOfDeclared()
 	}
 	s.Pop(1)
+	if qlog {
+		fmt.Fprintf(os.Stderr, "Q %s %s\n", r, termStr(extra, 6))
+	}
 	switch r {
 	case "unknown":
 		ex.inconclusive("solver returned unknown: " + fmt.Sprint(s.Errors))
@@ -160,6 +197,9 @@ func (ex *Explorer) query(extra *Term) (bool, map[string]uint64) {
 // Holds reports whether c is implied by the path condition (one query, no decision).
 func (ex *Explorer) Holds(c *Term) (bool, map[string]uint64) {
 	if c.IsTrue() || ex.pcSet[c] {
+		return true, nil
+	}
+	if v, ok := ex.Decided(c); ok && v {
 		return true, nil
 	}
 	nc := ex.tt.Not(c)
@@ -235,7 +275,6 @@ func (ex *Explorer) choose(kind string, alts []*Term, emptyKind string) int {
 	if ex.splitDepth > 0 && len(ex.decisions) >= ex.splitDepth && len(d.feasible) > 1 {
 		ex.recordSplit()
 	}
-	ex.skipAsserts = false
 	ex.cursor++
 	ex.decisions = append(ex.decisions, d)
 	ex.St.Decisions++
@@ -265,12 +304,102 @@ func (ex *Explorer) ChooseFree(kind string, n int) int {
 func (ex *Explorer) enter(k int, c *Term) {
 	ex.pc = append(ex.pc, c)
 	ex.pcSet[c] = true
+	ex.learn(c)
 	if ex.solver.level == k {
 		ex.solver.Push()
 		ex.solver.Assert(c)
 	} else if ex.solver.level < k {
 		ex.inconclusive("solver stack out of sync")
 	}
+}
+
+// learn records what a new conjunct of the path condition fixes.
+func (ex *Explorer) learn(c *Term) {
+	if c.IsConst() {
+		return
+	}
+	ex.known[c] = 1
+	switch c.Op {
+	case ONot:
+		ex.known[c.Args[0]] = 0
+	case OAnd:
+		ex.learn(c.Args[0])
+		ex.learn(c.Args[1])
+	case OEq:
+		a, b := c.Args[0], c.Args[1]
+		if a.IsConst() && !b.IsConst() {
+			ex.known[b] = a.C
+		} else if b.IsConst() && !a.IsConst() {
+			ex.known[a] = b.C
+		}
+	}
+}
+
+// peval evaluates t using only what the path condition fixes; ok=false if
+// the value is not determined that way.
+func (ex *Explorer) peval(t *Term, memo map[*Term]int8, vals map[*Term]uint64) (uint64, bool) {
+	if t.Op == OConst {
+		return t.C, true
+	}
+	if v, ok := ex.known[t]; ok {
+		return v, true
+	}
+	if t.Op == OVar {
+		return 0, false
+	}
+	if st, ok := memo[t]; ok {
+		if st == 1 {
+			return vals[t], true
+		}
+		return 0, false
+	}
+	av := make([]uint64, len(t.Args))
+	aw := make([]int, len(t.Args))
+	all := true
+	var okv [3]bool
+	for i, a := range t.Args {
+		v, ok := ex.peval(a, memo, vals)
+		av[i], aw[i] = v, a.W
+		if i < 3 {
+			okv[i] = ok
+		}
+		if !ok {
+			all = false
+		}
+	}
+	res, ok := uint64(0), false
+	switch {
+	case all:
+		res, ok = evalOp(t.Op, t.W, t.C, av, aw), true
+	case t.Op == OAnd && ((okv[0] && av[0] == 0) || (okv[1] && av[1] == 0)):
+		res, ok = 0, true
+	case t.Op == OOr && ((okv[0] && av[0] == 1) || (okv[1] && av[1] == 1)):
+		res, ok = 1, true
+	case t.Op == OIte && okv[0]:
+		if av[0] == 1 && okv[1] {
+			res, ok = av[1], true
+		} else if av[0] == 0 && okv[2] {
+			res, ok = av[2], true
+		}
+	case t.Op == OBvAnd && ((okv[0] && av[0] == 0) || (okv[1] && av[1] == 0)):
+		res, ok = 0, true
+	}
+	if ok {
+		memo[t] = 1
+		vals[t] = res
+	} else {
+		memo[t] = 0
+	}
+	return res, ok
+}
+
+// Decided reports whether the path condition fixes the boolean c.
+func (ex *Explorer) Decided(c *Term) (bool, bool) {
+	if len(ex.known) == 0 {
+		return false, false
+	}
+	v, ok := ex.peval(c, map[*Term]int8{}, map[*Term]uint64{})
+	return v == 1, ok
 }
 
 // Branch decides a symbolic boolean.
@@ -290,6 +419,10 @@ func (ex *Explorer) Branch(c *Term) bool {
 		ex.St.Syntactic++
 		return false
 	}
+	if v, ok := ex.Decided(c); ok {
+		ex.St.Syntactic++
+		return v
+	}
 	return ex.choose("branch", []*Term{c, ex.tt.Not(c)}, "") == 0
 }
 
@@ -299,6 +432,12 @@ func (ex *Explorer) Assume(c *Term) {
 		return
 	}
 	if c.IsFalse() {
+		panic(pathEnd{"assume", ""})
+	}
+	if v, ok := ex.Decided(c); ok {
+		if v {
+			return
+		}
 		panic(pathEnd{"assume", ""})
 	}
 	ex.choose("assume", []*Term{c}, "assume")
@@ -318,7 +457,6 @@ func (ex *Explorer) AssumeAfterFailure(c *Term) {
 		panic(pathEnd{"assertfalse", ""})
 	}
 	d := &Decision{kind: "assertfail", nAlts: 1, feasible: []int{0}, models: []map[string]uint64{m}, term: c}
-	ex.skipAsserts = false
 	ex.cursor++
 	ex.decisions = append(ex.decisions, d)
 	ex.model = m
@@ -395,7 +533,6 @@ func (ex *Explorer) Concretize(t *Term) uint64 {
 	if ex.splitDepth > 0 && len(ex.decisions) >= ex.splitDepth && len(d.values) > 1 {
 		ex.recordSplit()
 	}
-	ex.skipAsserts = false
 	ex.decisions = append(ex.decisions, d)
 	ex.St.Decisions++
 	if len(ex.decisions) > ex.St.MaxDepth {
